@@ -127,6 +127,9 @@ func registerIntrinsics(e *Engine) {
 	e.intr[vrtPath+".Symbolic"] = func(st *State, fn *ssa.Function, args []Value, ret func(Value)) {
 		ret(c.Bool(!e.Concrete))
 	}
+	e.intr[vrtPath+".Dump"] = func(st *State, fn *ssa.Function, args []Value, ret func(Value)) {
+		ret(nil)
+	}
 	e.intr[vrtPath+".Note"] = func(st *State, fn *ssa.Function, args []Value, ret func(Value)) {
 		ret(nil)
 	}
